@@ -24,9 +24,11 @@ type SpecEnv struct {
 	pkg  string
 	lets map[string]*Expr
 	bound map[string]Val
+	tnames map[string]types.Type // explicit type-name bindings (type parameters of an interface)
 	inOld bool
 	wantCell bool
 	preferNames bool // loop invariants: source variables denote their current values
+	frNames *Frame // additional frame whose source variables are visible (the closure running inside a spec loop)
 	cur  *State // the post-state while evaluating inside old(...)
 }
 
@@ -82,6 +84,9 @@ func mkInt(t Term) Val  { return Val{T: intT, L: []Term{t}} }
 
 // specType resolves a type name used in a quantifier or spec function.
 func (e *Engine) specType(name string, se *SpecEnv) types.Type {
+	if t, ok := se.tnames[name]; ok {
+		return t
+	}
 	switch name {
 	case "", "int":
 		return intT
@@ -130,6 +135,21 @@ func (e *Engine) lookupName(name string, se *SpecEnv) (Val, bool) {
 			return v, true
 		}
 	}
+	if se.frNames != nil && se.frNames != se.fr {
+		if nb, ok := se.frNames.names[name]; ok {
+			if nb.IsAddr {
+				loc := e.locOf(nb.V)
+				if loc.Kind != LocCell {
+					return e.loadLoc(se.st, loc), true
+				}
+				if _, live := se.st.cells[loc.Cell]; live {
+					return e.loadLoc(se.st, loc), true
+				}
+			} else {
+				return nb.V, true
+			}
+		}
+	}
 	if se.fr != nil {
 		if nb, ok := se.fr.names[name]; ok {
 			if nb.IsAddr {
@@ -170,6 +190,32 @@ func (e *Engine) lookupName(name string, se *SpecEnv) (Val, bool) {
 	}
 	if gv, ok := e.cs.GhostVars[name]; ok {
 		return e.ghostArray(se.st, gv, se), true
+	}
+	// spec-loop iterators: visited / niter (innermost), visited_N / niter_N (rangecall N), and after the call
+	// lastvisited / lastniter
+	if n := len(se.st.specIters); n > 0 {
+		switch name {
+		case "visited":
+			return Val{T: nil, L: []Term{se.st.specIters[n-1].visited}}, true
+		case "niter":
+			return mkInt(se.st.specIters[n-1].count), true
+		}
+	}
+	for _, it := range se.st.specIters {
+		if name == fmt.Sprintf("visited_%d", it.ord) {
+			return Val{T: nil, L: []Term{it.visited}}, true
+		}
+		if name == fmt.Sprintf("niter_%d", it.ord) {
+			return mkInt(it.count), true
+		}
+	}
+	if se.st.lastIter != nil {
+		switch name {
+		case "lastvisited":
+			return Val{T: nil, L: []Term{se.st.lastIter.visited}}, true
+		case "lastniter":
+			return mkInt(se.st.lastIter.count), true
+		}
 	}
 	if se.fr != nil && se.fr.iterOf != nil {
 		switch name {
@@ -233,6 +279,20 @@ func (e *Engine) evalSpec(x *Expr, se *SpecEnv) Val {
 		}
 		return e.evalSpec(x.Args[0], &n)
 	case "unary":
+		if x.Name == "&" {
+			// &v: the address of an addressable local variable
+			if x.Args[0].Op == "ident" && se.fr != nil {
+				for _, f := range []*Frame{se.frNames, se.fr} {
+					if f == nil {
+						continue
+					}
+					if nb, ok := f.names[x.Args[0].Name]; ok && nb.IsAddr {
+						return nb.V
+					}
+				}
+			}
+			panic(unsupported("&%s: not an addressable local variable", x.Args[0]))
+		}
 		a := e.evalSpec(x.Args[0], se)
 		switch x.Name {
 		case "!":
@@ -276,9 +336,13 @@ func (e *Engine) evalSpec(x *Expr, se *SpecEnv) Val {
 			var ps []string
 			for _, tr := range grp {
 				tv := e.evalSpec(tr, inner)
-				ps = append(ps, tv.L[0].S)
+				if len(tv.L) > 0 && strings.Contains(tv.L[0].S, "q_") {
+					ps = append(ps, tv.L[0].S)
+				}
 			}
-			pat += " :pattern (" + strings.Join(ps, " ") + ")"
+			if len(ps) > 0 {
+				pat += " :pattern (" + strings.Join(ps, " ") + ")"
+			}
 		}
 		if pat == "" {
 			// automatic trigger: one idx(·) term per bound variable, when every variable indexes an element
@@ -559,7 +623,7 @@ func (e *Engine) evalCall(x *Expr, se *SpecEnv) Val {
 	case "fresh":
 		// allocated by this call: reference / base at or above the entry allocation counter
 		a := arg(0)
-		if _, isPtr := a.T.Underlying().(*types.Pointer); isPtr {
+		if _, isPtr := a.T.Underlying().(*types.Pointer); isPtr || mapTypeOf(a.T) != nil {
 			return mkBool(Ge(e.allocID(a.L[0]), e.next0))
 		}
 		return mkBool(Ge(a.L[0], e.next0))
@@ -743,6 +807,38 @@ func (e *Engine) evalCall(x *Expr, se *SpecEnv) Val {
 		return mkInt(e.ctx.App("randstate", SInt, arg(0).L[0]))
 	case "sameperm":
 		return mkBool(T(SBool, "(= %s %s)", arg(0).L[0].S, arg(1).L[0].S))
+	case "memrow":
+		// memrow(s): the membership array (element -> bool) of set s in the current state
+		m := e.setMapOf(se.st, arg(0))
+		mi := e.mapInfo(m.T)
+		e.touchMap(se.st, mi)
+		return Val{T: nil, L: []Term{Select(e.mapDom(se.st, mi), m.L[0])}}
+	case "setof":
+		// setof(slice): the membership array of the elements of a slice
+		sv := arg(0)
+		et := resolve(elemOfSlice(sv.T), nil)
+		ls := e.lay.Leaves(et)
+		if len(ls) != 1 {
+			panic(unsupported("setof over composite elements"))
+		}
+		row := Select(e.getSliceHeap(se.st, et, 0), sv.L[0])
+		arr := e.ctx.DefArray("setof", ls[0].Sort, SBool, func(x Term) Term {
+			return T(SBool, "(exists ((q_m Int)) (! (and (<= 0 q_m) (< q_m %s) (= (select %s (+ %s (idx q_m))) %s)) :pattern ((idx q_m))))", sv.L[2].S, row.S, sv.L[1].S, x.S)
+		})
+		e.idxWrap(Term{"x", SInt})
+		return Val{T: nil, L: []Term{arr}}
+	case "setmap":
+		return e.setMapOf(se.st, arg(0))
+	case "absmap":
+		return e.absMapOf(arg(0))
+	case "mem":
+		// mem(s, x): x is a member of set s
+		return mkBool(e.mapHas(se.st, e.setMapOf(se.st, arg(0)), arg(1)))
+	case "card":
+		return mkInt(e.mapCard(se.st, e.setMapOf(se.st, arg(0))))
+	case "dyntype":
+		// dyntype(v, maps.Set) etc. is not needed: implementations are distinguished by setmap
+		panic(unsupported("dyntype"))
 	case "mark":
 		// mark(x): an always-true marker used purely as an instantiation trigger
 		a := arg(0)
